@@ -39,7 +39,7 @@ MiB = T.MiB
 PADS = (64 * MiB, 64 * MiB, 127 * MiB, 127 * MiB, 64 * MiB)
 EDGE_E = tuple(range(-20, 12, 4))
 OUTS = ("exe", "pie")
-IN_FLIGHT = 4
+IN_FLIGHT = int(os.environ.get("C11_IN_FLIGHT", 4))   # outputs are 130-330 MB each
 RANGE_ERR = re.compile(r"out of range|outside of bounds|no thunk|thunk|overflow|does not fit|too (far|large)", re.I)
 BASE = None          # scratch directory (set in main; inherited by the forked workers)
 DEADLINE = None
@@ -47,10 +47,18 @@ DEADLINE = None
 
 # ------------------------------------------------------------------------------------- family
 def dist_class(spec):
+    """Coarse class of the displacement the inputs promise (callee block - caller block, before the
+    linker adds anything), used in violation keys; the member id carries the exact placement."""
     if spec["family"] == "edge":
-        return f"{'fwd' if spec['caller'] < spec['callee'] else 'back'}-edge{spec['e']:+d}"
+        fwd = spec["caller"] < spec["callee"]
+        d = 128 * MiB + spec["e"]
+        inside = d <= (128 * MiB - 4 if fwd else 128 * MiB)
+        return f"{'+' if fwd else '-'}edge-{'in' if inside else 'out'}"
     d = T.nominal_distance(spec_blocks(spec), 32 if spec["family"] == "main" else 16)
-    return f"{'+' if d > 0 else '-'}{(abs(d) + MiB // 2) // MiB}M@{spec['caller']}"
+    n = abs(d)
+    name = "near" if n < MiB else "mid" if n < 126 * MiB else "margin" if n < 128 * MiB else \
+        "far" if n < 256 * MiB else "vfar"
+    return f"{'+' if d > 0 else '-'}{name}"
 
 
 def spec_blocks(spec):
@@ -66,7 +74,7 @@ def member(family, kind, form, caller, callee, out, e=0):
     if family == "edge":
         s["e"] = e
     s["cls"] = dist_class(s)
-    s["id"] = f"{family}:{kind}:{form}:{s['cls']}:{out}"
+    s["id"] = f"{family}:{kind}:{form}:{caller}>{callee}{f'e{e:+d}' if family == 'edge' else ''}:{s['cls']}:{out}"
     return s
 
 
@@ -92,21 +100,23 @@ def enumerate_control():
 
 
 def quick_members():
-    """24 members: every kind x form once on a far placement (direction, depth and output kind rotate
-    with the cell index), every kind once near/mid, and six edge members."""
+    """24 members, the far ones first (a capped run has still seen every kind): every kind x form once
+    on a far placement (direction, depth and output kind rotate with the cell index), six edge
+    members, every kind once near/mid."""
     far = [(0, 4), (4, 0), (1, 4), (4, 2)]
     near = [(2, 3), (3, 1), (0, 2)]
     out = []
-    for ki, k in enumerate(T.KINDS):
-        for fi, f in enumerate(("bl", "b")):
+    for fi, f in enumerate(("bl", "b")):
+        for ki, k in enumerate(T.KINDS):
             a, b = far[(ki + fi) % len(far)]
             out.append(member("main", k, f, a, b, OUTS[(ki + fi) % 2]))
-        a, b = near[ki % len(near)]
-        out.append(member("main", k, ("bl", "b")[ki % 2], a, b, OUTS[(ki + 1) % 2]))
     for i, (k, f, (a, b), e) in enumerate((("global", "bl", (0, 1), -16), ("global", "bl", (0, 1), -12),
                                            ("global", "b", (1, 0), 0), ("global", "b", (1, 0), 4),
                                            ("local", "bl", (0, 1), -4), ("local", "b", (1, 0), 4))):
         out.append(member("edge", k, f, a, b, OUTS[i % 2], e))
+    for ki, k in enumerate(T.KINDS):
+        a, b = near[ki % len(near)]
+        out.append(member("main", k, ("bl", "b")[ki % 2], a, b, OUTS[(ki + 1) % 2]))
     return out
 
 
@@ -245,12 +255,12 @@ def judge(chk, res, stats):
         ev = res["eval"]
         stats["stubs"][ev["stubs"] or "direct"] = stats["stubs"].get(ev["stubs"] or "direct", 0) + 1
         if ev["stubs"]:
-            stats["nontrivial"].add((spec["family"], spec["kind"], spec["form"], spec["cls"], spec["out"]))
+            stats["nontrivial"].add(spec["id"])
         if ev["disp"] is not None and spec["family"] == "edge":
             stats["edge_disp"].add((ev["disp"], ev["stubs"] or "direct"))
     elif st == "misdirected":
         chk.violation(f"misdirected:{keytail}", f"{spec['id']}: {res['eval']['detail']}", replay)
-        stats["nontrivial"].add((spec["family"], spec["kind"], spec["form"], spec["cls"], spec["out"]))
+        stats["nontrivial"].add(spec["id"])
     else:
         stats["rejected"].append(spec["id"])
         lld_ok = res.get("lld_rc") == 0 and res.get("lld_eval", {}).get("ok")
@@ -266,7 +276,7 @@ def judge(chk, res, stats):
             chk.violation(f"out-of-range-error:{keytail}",
                           f"{spec['id']}: wild rejects ({res['msg'][-260:]!r}) a member ld.lld links and whose lld "
                           f"output reaches the callee ({res['lld_eval']['stubs'] or 'direct'})", replay)
-            stats["nontrivial"].add((spec["family"], spec["kind"], spec["form"], spec["cls"], spec["out"]))
+            stats["nontrivial"].add(spec["id"])
         elif lld_ok:
             stats["other_rejections"].append((spec["id"], res["msg"][-200:]))
         else:
@@ -319,7 +329,8 @@ def main():
         stats = new_stats()
         if chk.args.replay:
             with open(chk.args.replay) as f:
-                spec = json.load(f)["replay"]
+                rp = json.load(f)["replay"]
+            spec = member(rp["family"], rp["kind"], rp["form"], rp["caller"], rp["callee"], rp["out"], rp.get("e", 0))
             spec["calibrate"] = True
             keep = os.environ.get("C11_KEEP")      # directory that receives the member's inputs
             res = run_member(spec, keep=keep)
@@ -339,7 +350,7 @@ def main():
             members = [m for m in members if re.search(only, m["id"])]
         family_size = len(members)
         # one accepted far member per kind is also linked with lld to calibrate the walker
-        seen = set()
+        seen = set() if chk.thorough else {"local", "align32", "custom", "plt"}     # quick: global and ifunc only
         for m in members:
             if m["family"] == "main" and m["kind"] not in seen and abs(m["caller"] - m["callee"]) >= 3:
                 m["calibrate"] = True
